@@ -1969,10 +1969,13 @@ impl<E: Effect> Executor<E> {
         let first = &values[0];
         let all_equal = values.iter().all(|value| self.values_equal(first, value));
 
-        let result = if all_equal {
-            first.clone()
-        } else {
+        // The result is only ever tested for truthiness, so equal nils must not come back as nil.
+        let result = if !all_equal {
             Value::nil()
+        } else if first.is_nil() {
+            Value::ok()
+        } else {
+            first.clone()
         };
 
         self.push_value(proc, result);
